@@ -407,7 +407,7 @@ func fanoutRun(opt fanOpt) func(h []dsim.Rec) {
 						e.node.WriteMessageAll(&message.MessageRaw{ID: 9999, Payload: []byte{1}}) //nolint: id outside the dialect
 					case 1:
 						if cfg.version == 1 {
-							e.node.WriteMessageAll(&hd.MessageVerifHi{X: 3}) //nolint: id 300 on a v1 link
+							e.node.WriteMessageAll(&hd.MessageVerifHi{X: 3}) //nolint: id 70000 on a v1 link
 						}
 					case 2:
 						if err := e.node.WriteMessageAll(&notInDialect{}); err == nil {
